@@ -263,9 +263,11 @@ package weshnet
 //@ extern (*berty.tech/weshnet/v2/pkg/bertyvcissuer.Client).Complete(c, uri) (credentials, identifier, parsed, err)
 //@   havocall
 //@   ensures err == nil ==> parsed != nil && parsed.Issued != nil && parsed.Expired != nil
+//@ # omd_member(d): the member public key object of an own member/device pair (immutable)
+//@ spec func omd_member(d Ref) Ref
 //@ extern (berty.tech/weshnet/v2/pkg/secretstore.OwnMemberDevice).Member(d) (pk)
-//@   noeffect
-//@   ensures pk != nil
+//@   pure
+//@   ensures pk != nil && pk == omd_member(d)
 //@ extern (berty.tech/weshnet/v2/pkg/secretstore.OwnMemberDevice).Device(d) (pk)
 //@   noeffect
 //@   ensures pk != nil
@@ -478,3 +480,83 @@ package weshnet
 //@   safety
 //@   havocall
 //@   ensures ret2 == nil ==> ret0 != nil && ret1 != nil
+
+//@ # ======================= C07: contact lifecycle - the guards in front of every append =======================
+//@ # cstate(m, pk): the state the account's index reports for contact pk (0 Undefined, 1 ToRequest, 2 Received, 3 Added,
+//@ # 4 Removed, 5 Discarded, 6 Blocked). The index lookups are abstracted by this ghost; appendix A of DESIGN.md is the
+//@ # transition table the obligations below are taken from. Event types: 106 OutgoingEnqueued, 107 OutgoingSent,
+//@ # 108 IncomingReceived, 109 IncomingDiscarded, 110 IncomingAccepted, 111 Blocked, 112 Unblocked.
+//@ ghost cstate(Ref) (Array Bytes Int)
+//@ extern (*berty.tech/weshnet/v2.MetadataStore).getContactStatus(m, pk) (st)
+//@   pure
+//@   ensures st == ite(pk == nil, 0, cstate(m)[pkv(pk)]) && 0 <= st && st <= 6
+//@ func (*MetadataStore).checkContactStatus
+//@   for C07
+//@   requires m != nil
+//@   ensures [C07.check.range] pk != nil ==> 0 <= cstate(m)[pkv(pk)] && cstate(m)[pkv(pk)] <= 6
+//@   ensures [C07.check.1] len(states) == 1 ==> (result <==> states[0] == ite(pk == nil, 0, cstate(m)[pkv(pk)]))
+//@   ensures [C07.check.3] len(states) == 3 ==> (result <==> (states[0] == ite(pk == nil, 0, cstate(m)[pkv(pk)]) || states[1] == ite(pk == nil, 0, cstate(m)[pkv(pk)]) || states[2] == ite(pk == nil, 0, cstate(m)[pkv(pk)])))
+//@ extern slices.Contains(s, v) (r)
+//@   pure
+//@   ensures len(s) == 1 ==> (r <==> s[0] == v)
+//@   ensures len(s) == 3 ==> (r <==> (s[0] == v || s[1] == v || s[2] == v))
+//@ pred cmOwn(m) = m != nil && m.memberDevice != nil && m.group != nil && m.logger != nil
+//@ # every lifecycle event about a contact is appended through contactAction with the contact's own key
+//@ func (*MetadataStore).contactAction
+//@   for C07
+//@   havocall
+//@   requires cmOwn(m)
+//@   at (*berty.tech/weshnet/v2.MetadataStore).attributeSignAndAddEvent requires [C07.action.type] eventType == caller_evtType && caller_pk != nil
+//@ func (*MetadataStore).ContactRequestOutgoingSent
+//@   for C07
+//@   havocall
+//@   requires cmOwn(m)
+//@   at (*MetadataStore).contactAction requires [C07.sent.allowed] pk == caller_pk && pk != nil && evtType == 107
+//@        && (cstate(m)[pkv(pk)] == 1 || cstate(m)[pkv(pk)] == 2 || cstate(m)[pkv(pk)] == 4 || cstate(m)[pkv(pk)] == 5)
+//@ func (*MetadataStore).ContactRequestIncomingDiscard
+//@   for C07
+//@   havocall
+//@   requires cmOwn(m)
+//@   at (*MetadataStore).contactAction requires [C07.discard.allowed] pk == caller_pk && pk != nil && evtType == 109 && cstate(m)[pkv(pk)] == 2
+//@ func (*MetadataStore).ContactRequestIncomingAccept
+//@   for C07
+//@   havocall
+//@   requires cmOwn(m)
+//@   at (*MetadataStore).contactAction requires [C07.accept.allowed] pk == caller_pk && pk != nil && evtType == 110 && cstate(m)[pkv(pk)] == 2
+//@ func (*MetadataStore).ContactUnblock
+//@   for C07
+//@   havocall
+//@   requires cmOwn(m)
+//@   at (*MetadataStore).contactAction requires [C07.unblock.allowed] pk == caller_pk && pk != nil && evtType == 112 && cstate(m)[pkv(pk)] == 6
+//@ func (*MetadataStore).ContactBlock
+//@   for C07
+//@   havocall
+//@   requires cmOwn(m)
+//@   at (*MetadataStore).contactAction requires [C07.block.allowed] pk == caller_pk && evtType == 111 && (pk != nil ==> cstate(m)[pkv(pk)] != 6)
+//@   at (*MetadataStore).contactAction requires [C07.block.not-self] pk != nil ==> pkv(pk) != pkv(omd_member(m.memberDevice))
+//@ # enqueue: a well-formed contact that is not the account itself; refused when Added; an explicit request in state
+//@ # Received / Removed / Discarded is the implicit 'sent'; otherwise (Undefined, ToRequest, Blocked) an Enqueued event
+//@ func (*MetadataStore).ContactRequestOutgoingEnqueue
+//@   for C07
+//@   havocall
+//@   requires cmOwn(m) && contact != nil
+//@   at (*MetadataStore).ContactRequestOutgoingSent requires [C07.enqueue.implicit-sent] pk != nil && pkv(pk) == bytes(caller_contact.Pk)
+//@        && (cstate(m)[pkv(pk)] == 2 || cstate(m)[pkv(pk)] == 4 || cstate(m)[pkv(pk)] == 5)
+//@   at (*berty.tech/weshnet/v2.MetadataStore).attributeSignAndAddEvent requires [C07.enqueue.allowed] eventType == 106
+//@        && len(caller_contact.Pk) == 32 && len(caller_contact.PublicRendezvousSeed) == 32
+//@        && (cstate(m)[bytes(caller_contact.Pk)] == 0 || cstate(m)[bytes(caller_contact.Pk)] == 1 || cstate(m)[bytes(caller_contact.Pk)] == 6)
+//@   at (*berty.tech/weshnet/v2.MetadataStore).attributeSignAndAddEvent requires [C07.enqueue.not-self] bytes(caller_contact.Pk) != pkv(omd_member(m.memberDevice))
+//@   at (*berty.tech/weshnet/v2.MetadataStore).attributeSignAndAddEvent requires [C07.enqueue.event] typeis(evt, "*berty.tech/weshnet/v2/pkg/protocoltypes.AccountContactRequestOutgoingEnqueued")
+//@        && as(evt, "*berty.tech/weshnet/v2/pkg/protocoltypes.AccountContactRequestOutgoingEnqueued").Contact != nil
+//@        && as(evt, "*berty.tech/weshnet/v2/pkg/protocoltypes.AccountContactRequestOutgoingEnqueued").Contact.Pk == caller_contact.Pk
+//@        && as(evt, "*berty.tech/weshnet/v2/pkg/protocoltypes.AccountContactRequestOutgoingEnqueued").Contact.PublicRendezvousSeed == caller_contact.PublicRendezvousSeed
+//@ # incoming: refused for the account itself, when already Received / Added, and - the blocked contact - when Blocked
+//@ func (*MetadataStore).ContactRequestIncomingReceived
+//@   for C07
+//@   havocall
+//@   requires cmOwn(m) && contact != nil
+//@   at (*MetadataStore).ContactRequestOutgoingSent requires [C07.incoming.implicit-sent] pk != nil && pkv(pk) == bytes(caller_contact.Pk) && cstate(m)[pkv(pk)] == 1
+//@   at (*berty.tech/weshnet/v2.MetadataStore).attributeSignAndAddEvent requires [C07.incoming.allowed] eventType == 108 && len(caller_contact.Pk) == 32
+//@        && (len(caller_contact.PublicRendezvousSeed) == 32 || len(caller_contact.PublicRendezvousSeed) == 0)
+//@        && (cstate(m)[bytes(caller_contact.Pk)] == 0 || cstate(m)[bytes(caller_contact.Pk)] == 4 || cstate(m)[bytes(caller_contact.Pk)] == 5)
+//@   at (*berty.tech/weshnet/v2.MetadataStore).attributeSignAndAddEvent requires [C07.incoming.not-self] bytes(caller_contact.Pk) != pkv(omd_member(m.memberDevice))
